@@ -49,7 +49,9 @@ class HostileUpstreams:
     HTTP = {
         "st1": b"HTTP/1.1 200\r\n\r\n", "st2": b"HTTP/1.1 99999 x\r\n\r\n", "st3": b"HTTP/1.1 abc x\r\n\r\n", "st4": b"\r\n\r\n", "st5": b"HTTP/1.1 200 OK\r\nX\r\n\r\n",
         "st6": b"HTTP/1.1 200 OK\r\n: \r\n\r\n", "st7": b"HTTP/1.1 200 OK\r\n" + b"A: b\r\n" * 5000 + b"\r\n", "st8": b"HTTP/1.1 200 OK\r\nA: " + b"x" * 200000 + b"\r\n\r\n",
-        "st9": b"\xff\xfe\xfd\r\n\r\n", "sid1": b"HTTP/1.1 200 OK\r\nSession-Id: x\r\n\r\n", "sid2": b"HTTP/1.1 200 OK\r\nSession-Id: -1\r\n\r\n",
+        "st9": b"\xff\xfe\xfd\r\n\r\n", "st10": b"HTTP/1.1 20\r\n\r\n", "st11": b"HTTP/1.1 2\xe2\x82\xac OK\r\n\r\n", "st12": b"HTTP/1.1 \xe2\x82\xac\r\n\r\n", "st13": b"HTTP/1.1 2\r\n\r\n",
+        "ch1": b"HTTP/1.1 200 OK\r\nProxy-Channel: quic-datagrams\r\nSession-Id: 7\r\n\r\n", "ch2": b"HTTP/1.1 200 OK\r\nSession-Id: 7\r\nProxy-Channel: x\r\n\r\n",
+        "ch3": b"HTTP/1.1 200 OK\r\nProxy-Channel: \r\n\r\n", "ch4": b"HTTP/1.1 200 OK\r\nProxy-Channel: inline\r\nProxy-Channel: quic-datagrams\r\n\r\n", "sid1": b"HTTP/1.1 200 OK\r\nSession-Id: x\r\n\r\n", "sid2": b"HTTP/1.1 200 OK\r\nSession-Id: -1\r\n\r\n",
         "sid3": b"HTTP/1.1 200 OK\r\nSession-Id: 4294967296\r\n\r\n", "sid4": b"HTTP/1.1 200 OK\r\nSession-Id:  7\r\n\r\n", "sid5": b"HTTP/1.1 200 OK\r\nSession-Id: \r\n\r\n",
         "sid6": b"HTTP/1.1 200 OK\r\nSession-Id: 7\r\n\r\nRPFM\0\0\0\x07\0\x03\0\x02\x03\x01axy", "sid7": b"HTTP/1.1 200 OK\r\nSession-Id: 7\r\n\r\nRPFM\0\0\0\x07\xff\xff\xff\xff",
         "sid8": b"HTTP/1.1 200 OK\r\nSession-Id: 7\r\n\r\nXXXX\0\0\0\x07\0\0\0\0", "sid9": b"HTTP/1.1 200 OK\r\nSession-Id: 7\r\n\r\nRPFM\0\0\0\x07\0\x08\0\0\x09\x06\x01\x02\x03\x04\0\x01",
@@ -370,7 +372,7 @@ async def run_against(out, args, binary, label, rng, passes):
                         except Exception:
                             pass
                         c.close()
-                        if host.startswith("sid") and port == 1001:
+                        if (host.startswith("sid") or host.startswith("ch")) and port == 1001:
                             # UDP over the http connector: exercises Session-Id and inline frames from the upstream
                             c = await open_conn("127.0.0.1", P["http"])
                             c.write(http_connect_bytes(host + ".test", 1001, [("Proxy-Protocol", "udp")]))
